@@ -40,6 +40,7 @@ var ipCatalogue = []ipEntry{
 	{"fe80::2%eth0", `for="[fe80::2%eth0]"`, "fe80::2%eth0", clLinkLocal},
 	{" 7.7.7.7 ", " for=7.7.7.7 ", "7.7.7.7", clPublic},
 	{"192.168.1.1", "for=192.168.1.1", "192.168.1.1", clPrivate},
+	{"\t5.5.5.5\t", "\tfor=5.5.5.5\t", "5.5.5.5", clPublic}, // optional white space is SP / HTAB
 }
 
 func (e ipEntry) defaultTrusted() bool {
@@ -220,7 +221,7 @@ func HarnessC18Designate() {
 func HarnessC18Single() {
 	a := ipCatalogue[sym.Choose("a", len(ipCatalogue))]
 	b := ipCatalogue[sym.Choose("b", len(ipCatalogue))]
-	if len(b.xff) > 0 && b.xff[0] == ' ' {
+	if len(b.xff) > 0 && (b.xff[0] == ' ' || b.xff[0] == '\t') {
 		return // surrounding white space in a whole header value is removed by the HTTP server: not specified here
 	}
 	c := newIPContext("X-Real-Ip", []string{a.xff, b.xff}, "192.0.2.9:4000")
